@@ -75,11 +75,17 @@ structure Leaf where
 
 /-- a dataclass placed at a destination: class name, own name (destination of a root / field name of
     a member), its non-dataclass fields in declaration order, the keyword overrides of the member's
-    `default_factory` (`functools.partial(Cls, x=…)`; a root has none) and its dataclass members. -/
+    `default_factory` (`functools.partial(Cls, x=…)`; a root has none), its dataclass members, and
+    whether the member field itself is command-line exposed (`init` and `cmd`, dataclass_wrapper.py:76-79:
+    a `cmd=False` member is skipped together with everything below it; ignored for a root). -/
 inductive Tree where
   | node (cls : Str) (name : Str) (leaves : List Leaf) (over : List (Str × Option Str))
-      (kids : List Tree)
+      (kids : List Tree) (cmd : Bool := true)
   deriving Repr
+
+/-- `field.init and field.metadata.get("cmd", True)` of the member field -/
+def Tree.exposed : Tree → Bool
+  | .node _ _ _ _ _ cmd => cmd
 
 /-- one `DataclassWrapper` = one argument group -/
 structure Group where
@@ -94,14 +100,15 @@ structure Group where
 mutual
 /-- `[w] + list(w.descendants)` (parsing.py:1122, dataclass_wrapper.py:390-394) -/
 def flat (parent : Str) (level : Nat) (pref : Str) : Tree → List Group
-  | .node cls name leaves over kids =>
+  | .node cls name leaves over kids _ =>
     let dest := if parent.isEmpty then name else parent ++ '.' :: name
     { cls := cls, dest := dest, level := level, pref := pref, leaves := leaves, over := over }
       :: flatKids dest (level + 1) kids
-/-- children get `prefix=""` (dataclass_wrapper.py:143-149) -/
+/-- children get `prefix=""` (dataclass_wrapper.py:143-149); a `cmd=False` / `init=False` member gets no
+    wrapper at all (dataclass_wrapper.py:76-79) -/
 def flatKids (parent : Str) (level : Nat) : List Tree → List Group
   | [] => []
-  | t :: ts => flat parent level [] t ++ flatKids parent level ts
+  | t :: ts => (if t.exposed then flat parent level [] t else []) ++ flatKids parent level ts
 end
 
 /-- the registrations `parser.add_arguments(cls, dest, prefix=…)`, in order -/
@@ -243,14 +250,26 @@ inductive Out
 /-- option strings already on the parser when the dataclass arguments are added -/
 def reserved : List Str := ["-h".toList, "--help".toList]
 
+/-- `add_argument` refuses an option string that is already on the parser (argparse `_check_conflict`
+    with `conflict_handler="error"`): `seen` are the strings registered so far.  The conflict resolver
+    only ever looked at the fields' own option strings, not at the negative flags `BooleanOptionalAction`
+    adds (nor at `-h`, `--help`: conflicts.py:144 TODO #49), so such a clash surfaces here, as
+    `argparse.ArgumentError`, in the middle of `_preprocessing`. -/
+def argClash : List Str → List Entry → Bool
+  | _, [] => false
+  | seen, e :: es => e.opts.any (fun s => seen.contains s) || argClash (seen ++ e.opts) es
+
+/-- the outcome of the `add_argument` loop -/
+def finish : Option (List Entry) → Out
+  | some es => if argClash reserved es then .argumentError else .ok es
+  | none => .notImplementedError
+
 def entriesOfGroups (cfg : Cfg) (mode : CR) (gs : List Group) (src : Sources)
     (pos : XLeaf → Str → List Str) : Out :=
   let xs := xleaves gs
   match setup cfg mode reserved (xs.map XLeaf.rec0) with
   | .ok recs =>
-    match mkAll src pos xs recs with
-    | some es => .ok es
-    | none => .notImplementedError
+    finish (mkAll src pos xs recs)
   | .conflictResolutionError => .conflictResolutionError
   | .assertionError => .assertionError
   | .argumentError => .argumentError
@@ -277,10 +296,11 @@ def Group.eraseHidden (g : Group) : Group := { g with leaves := g.leaves.filter 
 mutual
 /-- the same class tree with every `cmd=False` / `init=False` field deleted -/
 def Tree.eraseHidden : Tree → Tree
-  | .node cls name leaves over kids => .node cls name (leaves.filter Leaf.exposed) over (eraseKids kids)
+  | .node cls name leaves over kids cmd =>
+    .node cls name (leaves.filter Leaf.exposed) over (eraseKids kids) cmd
 def eraseKids : List Tree → List Tree
   | [] => []
-  | t :: ts => t.eraseHidden :: eraseKids ts
+  | t :: ts => if t.exposed then t.eraseHidden :: eraseKids ts else eraseKids ts
 end
 
 /-! ### `print_help` as an operation on a parser (parsing.py:396-406, 540-580) -/
@@ -314,6 +334,13 @@ def Parser.printHelp {T : Type} (p : Parser T) : Parser T :=
 
 /-- `print_help()` before fix e83a7f8: no file was applied -/
 def Parser.printHelpOld {T : Type} (p : Parser T) : Parser T := p.prep []
+
+/-- `parse_args(args)` where `args` contains `--help`: everything `parse_known_args` does up to and
+    including `_preprocessing(args)` (the constructor's files, the files named on this command line),
+    then argparse's help action formats the table and exits (parsing.py:281-380) -/
+def Parser.dashHelp {T : Type} (p : Parser T) (args : List Str) : Parser T :=
+  ({ p with ctorApplied := p.ctorApplied || p.hasCtorFiles,
+            argvApplied := p.argvApplied || p.namesFiles args }).prep args
 
 /-- `parse_known_args(args)`: apply the constructor's files, then those named on the command line,
     `_preprocessing(args)`, run argparse on the table (parsing.py:281-380) -/
